@@ -7,7 +7,8 @@ set -u
 P=$1; WT=$2; OUT=$3
 export GOFLAGS=-mod=mod GOPROXY=off
 cd "$WT" || exit 2
-git stash -q -u 2>/dev/null
+# NOTE: never `git stash` here - the stash is shared by every worktree of the repository.
+git diff > "$OUT/worktree_state_before_verify.diff" 2>/dev/null
 git checkout -q -- . 2>/dev/null
 DEMO_CMD=$(grep -v '^#' "$OUT/demo_cmd.txt" | grep "go test\|go run" | head -1)
 echo "== demo command: $DEMO_CMD"
